@@ -13,10 +13,23 @@
   * `C09_at_most_one`: counted on the model's ghost copy of the hook log, no machine receives
     more than one Signal in any call, for every machine set, oracle and batch; processing the
     reported events themselves never delivers a Signal (`C09_events_deliver_none`).
+  * Exactness (lower bound, `Proofs/SigDeliver.lean`): `C09_transition_logs_own_entry` (every
+    invocation of `transition` for an existing machine records its own entry),
+    `C09_signal_delivery_exact` (one Signal delivery adds exactly one to the count of the target and
+    nothing to any other machine), `C09_round_delivers` (the delivery round: nothing pending, nobody
+    receives a Signal; `all` pending, every machine exactly one; `allExcept x` pending, every
+    machine but `x` exactly one, and `x` exactly one iff the first round left a signal pending,
+    i.e. iff a machine answered a delivered Signal by signalling), `C09_call_delivers` (the same for
+    a whole call, with the slot as left by the reported events, which themselves deliver nothing:
+    `C09_events_deliver_exactly_none`), and `C09_call_delivers_reachable` for the states reached
+    from `Framework::new` with validated machines by any history of calls.
   The implementation is tied to this by the correspondence of the full internal log (tag L) and by
   the monitor `C09.monitor` on the implementation's traces.
 -/
 import MbVerif.Proofs.SigCount
+import MbVerif.Proofs.SigDeliver
+import MbVerif.Props.C01
+import MbVerif.Proofs.C04
 
 namespace Mb.C09
 open Mb
@@ -69,6 +82,69 @@ theorem C09_at_most_one (mi0 : Nat) (es : List TEvent) (t : Int) (s : Fw σ) :
     the end of the call. -/
 theorem C09_events_deliver_none (mi0 : Nat) (e : TEvent) (s : Fw σ) :
     sigOf mi0 (processEvent ρ e s) ≤ sigOf mi0 s := sig_processEvent ρ mi0 e s
+
+/-! ### exactness: who receives a Signal -/
+
+/-- Every invocation of `transition` (with fuel left) for a machine that exists extends the log by a
+    segment containing the invocation's own entry. -/
+theorem C09_transition_logs_own_entry (n j : Nat) (ev : Event) (s : Fw σ) (r : Runtime) (m : Machine)
+    (hr : s.rt[j]? = some r) (hm : s.machines[j]? = some m) :
+    ∃ l, (transition ρ (n + 1) j ev s).1.log = l ++ s.log ∧ LogEntry.trans j ev.toNat r.currentState ∈ l :=
+  transition_logs_own_entry ρ n j ev s r m hr hm
+
+/-- Delivering Signal to machine `i` adds exactly one Signal delivery to the count of `i` and none
+    to the count of any other (existing) machine `j`, whatever `i` does in response. -/
+theorem C09_signal_delivery_exact (i j : Nat) (s : Fw σ) (hlen : s.rt.length = s.machines.length)
+    (hj : j < s.rt.length) :
+    sigOf j (transition ρ FUEL i .signal s).1 = sigOf j s + (if i = j then 1 else 0) :=
+  sig_transition_signal_eq ρ j i s ⟨hj, hlen ▸ hj⟩
+
+/-- The delivery round, for an existing machine `j`: nothing pending, no Signal; `all` pending (two or
+    more distinct signallers), exactly one Signal; `allExcept x` pending (lone signaller `x`), exactly
+    one Signal for `j ≠ x`, and for `x` itself exactly one if the first round left a signal pending
+    (a machine answered a delivered Signal by signalling) and none otherwise. -/
+theorem C09_round_delivers (s : Fw σ) (j : Nat) (hlen : s.rt.length = s.machines.length) (hj : j < s.rt.length) :
+    (s.signalPending = none → sigOf j (signalRound ρ s) = sigOf j s) ∧
+    (s.signalPending = some .all → sigOf j (signalRound ρ s) = sigOf j s + 1) ∧
+    (∀ x, s.signalPending = some (.allExcept x) →
+      (j ≠ x → sigOf j (signalRound ρ s) = sigOf j s + 1) ∧
+      (j = x → sigOf j (signalRound ρ s) =
+        sigOf j s + (if (afterFirst ρ s (some x)).signalPending.isSome then 1 else 0))) :=
+  round_delivers ρ s j ⟨hj, hlen ▸ hj⟩
+
+/-- The reported events of a call deliver exactly no Signal. -/
+theorem C09_events_deliver_exactly_none (es : List TEvent) (t : Int) (s : Fw σ) (j : Nat) :
+    sigOf j (eventsDone ρ es t s) = sigOf j s := sig_eventsDone ρ es t s j
+
+/-- A whole call, for an existing machine `j`, with the pending slot as the reported events of the
+    call leave it (`eventsDone ρ es t s` is the state after the events, before the delivery round). -/
+theorem C09_call_delivers (es : List TEvent) (t : Int) (s : Fw σ) (j : Nat)
+    (hlen : s.rt.length = s.machines.length) (hj : j < s.rt.length) :
+    ((eventsDone ρ es t s).signalPending = none → sigOf j (triggerEvents ρ es t s) = sigOf j s) ∧
+    ((eventsDone ρ es t s).signalPending = some .all → sigOf j (triggerEvents ρ es t s) = sigOf j s + 1) ∧
+    (∀ x, (eventsDone ρ es t s).signalPending = some (.allExcept x) →
+      (j ≠ x → sigOf j (triggerEvents ρ es t s) = sigOf j s + 1) ∧
+      (j = x → sigOf j (triggerEvents ρ es t s) =
+        sigOf j s + (if (afterFirst ρ (eventsDone ρ es t s) (some x)).signalPending.isSome then 1 else 0))) :=
+  call_delivers ρ es t s j ⟨hj, hlen ▸ hj⟩
+
+/-- The same for every call of every history of an instance created from validated machines. -/
+theorem C09_call_delivers_reachable (ms : List Machine) (hms : C01.MachinesValid ms) (fp fb : F64) (t0 : Int) (rng : σ)
+    (h : List Call) (es : List TEvent) (t : Int) (j : Nat) (hj : j < ms.length) :
+    let s := runCalls ρ (Fw.init ρ ms fp fb t0 rng) h
+    ((eventsDone ρ es t s).signalPending = none → sigOf j (triggerEvents ρ es t s) = sigOf j s) ∧
+    ((eventsDone ρ es t s).signalPending = some .all → sigOf j (triggerEvents ρ es t s) = sigOf j s + 1) ∧
+    (∀ x, (eventsDone ρ es t s).signalPending = some (.allExcept x) →
+      (j ≠ x → sigOf j (triggerEvents ρ es t s) = sigOf j s + 1) ∧
+      (j = x → sigOf j (triggerEvents ρ es t s) =
+        sigOf j s + (if (afterFirst ρ (eventsDone ρ es t s) (some x)).signalPending.isSome then 1 else 0))) := by
+  intro s
+  have hV : Valid s := C01.C01_state_valid ρ ms hms fp fb t0 rng h
+  have hm : s.machines = ms := by
+    have h1 := run_machines (runCalls_run ρ (Fw.init ρ ms fp fb t0 rng) h)
+    have h2 := run_machines (init_run ρ ms fp fb t0 rng)
+    exact h1.trans h2
+  exact C09_call_delivers ρ es t s j hV.lenRt (by rw [hV.lenRt, hm]; exact hj)
 
 /-- Non-vacuity: machine 2 signalling three times keeps excluding machine 2; machines 2 and 0 give `all`. -/
 example : [2, 2, 2].foldl sigStep none = some (.allExcept 2) := by decide
